@@ -188,7 +188,16 @@ func (s *Server) serve(ctx context.Context, listener net.Listener, handler Modbu
 			readTimeout:  s.ReadTimeout,
 			onErrorFunc:  onErrorFunc,
 		}
-		s.trackConn(c, true)
+		if !s.trackConn(c, true) {
+			// Shutdown has already swept the connections: this one must not outlive it
+			if err := netConn.Close(); err != nil {
+				onErrorFunc(fmt.Errorf("connection.close error, err: %w", err))
+			}
+			if s.OnCloseConnFunc != nil {
+				s.OnCloseConnFunc(cCtx, netConn.RemoteAddr(), true)
+			}
+			return ErrServerClosed
+		}
 		go func(ctx context.Context, conn *connection) {
 			defer func() {
 				if rec := recover(); rec != nil {
@@ -222,10 +231,15 @@ func (oc *onceCloseListener) close() {
 	oc.closeErr = oc.Listener.Close()
 }
 
-func (s *Server) trackConn(c *connection, isAdd bool) {
+// trackConn adds or removes the connection; a connection is not added (false) once the server is shut down
+func (s *Server) trackConn(c *connection, isAdd bool) bool {
 	// this is how http.Server does it
 	s.mu.Lock()
 	defer s.mu.Unlock()
+
+	if isAdd && s.isShutdown.Load() {
+		return false
+	}
 
 	if s.activeConnections == nil {
 		s.activeConnections = make(map[*connection]struct{})
@@ -237,6 +251,7 @@ func (s *Server) trackConn(c *connection, isAdd bool) {
 		delete(s.activeConnections, c)
 		s.activeConnectionCount.Add(-1)
 	}
+	return true
 }
 
 func (c *connection) handle(ctx context.Context) {
